@@ -19,6 +19,7 @@ vars == <<ntpvt, ntsfun, neql, unit, fs>>
 Init == ntpvt \in {1, 2} /\ ntsfun \in {1, 2} /\ neql \in {1, 2} /\ unit \in {"METRIC", "FIELD", "LAB", "PVT-M"} /\ fs = {}
 Add(f) == /\ f \notin fs /\ Requires(f) \subseteq fs /\ Cardinality(fs) < MaxFeatures
           /\ (f = "SATNUM" => ntsfun = 2) /\ (f = "PVTNUM" => ntpvt = 2)
+          /\ (f = "THPRES" => neql = 2)          \* threshold pressures are between equilibration regions
           /\ fs' = fs \cup {f} /\ UNCHANGED <<ntpvt, ntsfun, neql, unit>>
 Next == \E f \in Features : Add(f)
 Spec == Init /\ [][Next]_vars
